@@ -131,12 +131,17 @@ def gen_arrays(rng, n):
             lay = "F"
         c = {"mode": "array", "seed": rng.randrange(10 ** 9), "dtype": dt, "shape": shape, "layout": lay,
              "target": rng.choice(["path", "path", "raw", "bytesio"]), "form": rng.choice(FORMS),
-             "proto": rng.choice([None, 2, 3, 4, 5, None]), "filler": rng.choice([0, 1, 5, 9, 14, 15, 16, 17, 250, 4000, 66000]),
+             "proto": rng.choice([None, 2, 3, 4, 5, None, -1, -2]), "filler": rng.choice([0, 1, 5, 9, 14, 15, 16, 17, 250, 4000, 66000]),
              "nested": rng.random() < 0.8, "name": rng.choice(["arr.pkl", "arr.gz", "arr", "arr.npy"]),
              "ensure_native": rng.choice(["auto", "auto", False, True]),
              "load_via": rng.choice(["path", "fileobj"])}
         if lay in ("memmap", "memmapF", "memmap_view"):
             c["mm_offset"] = rng.choice([0, 8, 16, 40])
+        if rng.random() < 0.12:
+            # joblib's own file object handed directly to dump as the TARGET, loaded back through every route
+            c["target"] = rng.choice(["zlibfile", "gzipfile"])
+            c["form"] = 0
+            c["load_via"] = rng.choice(["path", "fileobj", "jfile"])
         cases.append(c)
     return cases
 
@@ -156,7 +161,7 @@ def gen_big(rng):
         codec = rng.choice(["zlib", "gzip"])
         out.append({"mode": "array", "seed": rng.randrange(10 ** 9), "dtype": dt, "shape": shape, "layout": "zeros",
                     "target": rng.choice(["path", "raw", "bytesio"]), "form": rng.choice([[codec, 4], [codec, 7], [codec, 9], 7]),
-                    "proto": rng.choice([None, 4]), "filler": rng.choice([0, 7]), "nested": rng.random() < 0.5,
+                    "proto": rng.choice([None, 4, -1]), "filler": rng.choice([0, 7]), "nested": rng.random() < 0.5,
                     "ensure_native": "auto", "load_via": rng.choice(["path", "fileobj"])})
     return out
 
@@ -170,7 +175,7 @@ def gen_mmap(rng, n):
         if lay == "matrix" and len(shape) != 2:
             lay = "C"
         cases.append({"mode": "array", "seed": rng.randrange(10 ** 9), "dtype": dt, "shape": shape, "layout": lay,
-                      "target": rng.choice(["path", "raw"]), "form": 0, "proto": rng.choice([None, 2, 4, 5]),
+                      "target": rng.choice(["path", "raw"]), "form": 0, "proto": rng.choice([None, 2, 4, 5, -1]),
                       "filler": rng.choice([0, 3, 15, 16, 17, 1000]), "nested": rng.random() < 0.7,
                       "mmap_mode": rng.choice(["r", "r+", "c", "w+"]), "load_via": "path"})
     return cases
@@ -259,8 +264,10 @@ def judge_array(c, r, A):
         if g.get("itemsize") == 0 and r["dump_raise"].startswith("ZeroDivisionError"):
             return "dump of an array whose dtype has item size 0 raises " + r["dump_raise"], K_ITEMSIZE0
         return "dump raised " + r["dump_raise"], None
+    if r.get("target_closed_by_dump"):
+        return "dump closed the %s object it was given as target" % c["target"], None
     if "load_raise" in r:
-        return "load raised " + r["load_raise"], None
+        return "load (via %s) of a dump to %s raised %s" % (c.get("load_via", "path"), c["target"], r["load_raise"]), None
     if r.get("diff") == "type matrix -> ndarray" and not c.get("mmap_mode"):
         return "np.matrix comes back from load as a plain ndarray (subclass lost)", K_MATRIX
     if r.get("diff"):
@@ -434,8 +441,12 @@ def gen_loky_loops(rng, quick):
              {"mode": "loky_loop", "dtype": rng.choice(["<i4", ">f4", "<f8"]), "shape": rng.choice([[300, 20], [64, 64]]),
               "max_nbytes": rng.choice([100, 1000]), "iterations": 10, "fill": "arange", "order": rng.choice(["C", "F"]),
               "tasks": 3}]
+    cases.append({"mode": "loky_loop", "unmanaged": True, "dtype": "<f8", "shape": [5000], "max_nbytes": 0, "iterations": 4,
+                  "fill": "full", "tasks": 6})
     if not quick:
-        cases += [{"mode": "loky_loop", "dtype": [["a", "<i4"], ["b", ">f8"]], "shape": [2000], "max_nbytes": 0,
+        cases += [{"mode": "loky_loop", "unmanaged": True, "dtype": rng.choice(["<i4", ">f4"]), "shape": [40, 50], "max_nbytes": 100,
+                   "iterations": 6, "fill": "arange", "tasks": 8, "order": "F"},
+                  {"mode": "loky_loop", "dtype": [["a", "<i4"], ["b", ">f8"]], "shape": [2000], "max_nbytes": 0,
                    "iterations": 20, "fill": "arange"},
                   {"mode": "loky_loop", "dtype": "<f8", "shape": [5000], "max_nbytes": 0, "iterations": 12, "fill": "full",
                    "backend": "multiprocessing"}]
@@ -455,9 +466,11 @@ def judge_loky_loop(c, r):
                 break
     if stale:
         it, want, got = stale[0]
-        return ("managed Parallel(n_jobs=2, max_nbytes=%s), a fresh %s%s array per call: at call %d the array started with %s "
-                "but the task saw %s; %d of %d calls presented values of another array" % (
-                    c["max_nbytes"], c["dtype"], c["shape"], it, want, got, len(stale), len(r["rows"])))
+        how = ("one Parallel(n_jobs=2, max_nbytes=%s) object called repeatedly outside a with block, ONE %s%s array mutated in "
+               "place between the calls" if c.get("unmanaged") else
+               "managed Parallel(n_jobs=2, max_nbytes=%s), a fresh %s%s array per call") % (c["max_nbytes"], c["dtype"], c["shape"])
+        return ("%s: at call %d the array started with %s but a task saw %s; %d of %d calls presented other values" % (
+            how, it, want, got, len(stale), len(r["rows"])))
     return None
 
 
